@@ -80,11 +80,39 @@ def c01(out, tier, rng):
     design_pipeline(out, tier)
     ss = enumerated_sessions(out, tier, rng, parse_back=False)
     ss += pool_sessions(rng, tier, k=3, feedback=True, parse_back=True)
+    ss += molfile_order_sessions(rng, tier)
     count_sessions(out, ss, "c01")
     validate_sessions(out, ss, "C01:")
     out.extra["rule"] = RULE
     out.assumptions += ["relabelled descriptions are produced by the driver and verified by the specification (Derive) before use",
                         "bliss (igraph) is an assumed environment: only the use of its result is checked"]
+
+
+def molfile_order_sessions(rng, tier):
+    """the same molecule written as molfiles whose atom lines, indices, bond lines and bond directions are shuffled"""
+    import textgen
+    ss = []
+    for i in range(40 if tier == "quick" else 600):
+        M = textgen.abstract_molecule(rng, 8, coords=["0", "1.5", "-2.25", "3.125"])
+        nat = len(M["atoms"])
+        S = Session(f"molfile-order-{i}")
+        ids, perms = [], []
+        for v in range(3):
+            perm = gen.random_perm(rng, nat)
+            lines, _ = textgen.render_v3000(M, rng, perm=perm, opts={"indices": rng.choice(["shuffled", "gappy", "identity"])})
+            ids.append(S.read(lines, "V3000", "C07", floats=textgen.floats_of(M)))
+            perms.append(perm)
+        for x in ids:
+            if x:
+                c = S.canon(x)
+                if c:
+                    S.ser(c)
+        inv0 = {perms[0][k]: k for k in range(nat)}
+        for j in (1, 2):
+            if ids[0] and ids[j]:
+                S.sametext(ids[0], ids[j], [perms[j][inv0[p]] for p in range(nat)], "C01", strict=True)
+        ss.append(S)
+    return ss
 
 
 # ---------------------------------------------------------------------------------------------- C02
